@@ -17,7 +17,15 @@ func (fr *frame) val(v ssa.Value) Val {
 	case *ssa.Const:
 		return fx.constVal(t)
 	case *ssa.Function:
-		return Val{Clo: &Closure{Fn: t}, Typ: t.Type(), T: T(fmt.Sprintf("%d", 1000+hashString(t.String())%100000), SRef)}
+		id := T(fmt.Sprintf("%d", 1000+hashString(t.String())%100000), SRef)
+		if c := fx.e.contractFor(t); c != nil {
+			if p, ok := c.Opts["establishes"]; ok {
+				// a verified contract on t defines the ghost predicate p for this function value
+				fx.e.W.Declare("est_"+p+"_"+id.S, fmt.Sprintf("(assert (%s %s))", p, id.S))
+				fx.estUsed = append(fx.estUsed, "est_"+p+"_"+id.S)
+			}
+		}
+		return Val{Clo: &Closure{Fn: t}, Typ: t.Type(), T: id}
 	case *ssa.Global:
 		return Val{Addr: &Addr{Kind: "global", Glob: t, Base: t.Type().Underlying().(*types.Pointer).Elem(), FTyp: t.Type().Underlying().(*types.Pointer).Elem()}, Typ: t.Type()}
 	case *ssa.FreeVar:
@@ -847,7 +855,9 @@ func (fx *FX) convert(fr *frame, st *State, xv Val, from, to types.Type) Term {
 		}
 	case fw > 0 && ts == SStr:
 		// string(rune)
-		w.Declare("str_of_rune", "(declare-fun str_of_rune ((_ BitVec 32)) Str)")
+		if _, declared := fx.e.CS.Funs["str_of_rune"]; !declared {
+			w.Declare("str_of_rune", "(declare-fun str_of_rune ((_ BitVec 32)) Str)")
+		}
 		x.Signed = isSigned(from)
 		return app("str_of_rune", SStr, Resize(x, 32, true))
 	case fs == SSlice && ts == SSlice, fs == SStr && ts == SStr:
